@@ -253,6 +253,11 @@ static int __check_hmac(jwt_t *jwt)
 {
 	int key_bits = jwt->key->bits;
 
+	/* Only "oct" keys carry HMAC key material. The callers report
+	 * the failure. */
+	if (jwt->key->kty != JWK_KEY_TYPE_OCT)
+		return 1;
+
 	switch (jwt->alg) {
 	case JWT_ALG_HS256:
 		if (key_bits >= 256)
@@ -286,6 +291,13 @@ static int __check_hmac(jwt_t *jwt)
 static int __check_key_bits(jwt_t *jwt)
 {
 	int key_bits = jwt->key->bits;
+
+	/* An "oct" key has no provider key object behind it. */
+	if (jwt->key->kty == JWK_KEY_TYPE_OCT) {
+		jwt_write_error(jwt, "Key type not valid for %s",
+				jwt_alg_str(jwt->alg));
+		return 1;
+	}
 
 	switch (jwt->alg) {
 	case JWT_ALG_RS256:
